@@ -74,9 +74,12 @@ def run_cases(rep, tier, seed, prop, impl, model):
             multi = [c for c in g["acts"][-1] if c.isalpha() and any(c in a for a in g["acts"][:-1])]
             if multi and rng.chance(2, 3):
                 ch = multi[0]
+            # sometimes a generous `repeat time` next to the count: the count still decides
+            both = prop == "C05" and idx % 4 == 2
             g = playgen.gen_play(SplitMix(seed * 1000 + idx), nacts=len(g["acts"]), spotlight=spot, long_actions=long_actions,
-                                 repeat={"from": ch, "count": repeat["count"]}, **kw)
+                                 repeat={"from": ch, "count": repeat["count"], "time": "40s" if both else None}, **kw)
             g["repeat_count"] = repeat["count"]
+            g["repeat_time"] = both
             g["repeat_char"] = ch
         cases.append(g)
     plays = [e2e.Play(g["text"], timeout=120) for g in cases]
@@ -114,7 +117,7 @@ def run_cases(rep, tier, seed, prop, impl, model):
                 from_act = want
         failing = [p for p, (ac, an, fo) in pos.items() if an in g["failing"]]
         ftok = ",".join("%d.%d.%d.%d" % p for p in failing) or "-"
-        ms = model.ask("C04 perform %s %d:%d:0 %s -" % (ptok, from_act, count, ftok))
+        ms = model.ask("C04 perform %s %d:%d:%d %s -" % (ptok, from_act, count, 1 if g.get("repeat_time") else 0, ftok))
         if ms is None or ms.startswith("bad-op"):
             kdis.append({"config": g["text"], "problem": "model: %s" % ms})
             continue
@@ -264,6 +267,18 @@ def run_abort_cases(rep, tier, seed):
                           "  scene s entails for a: mark",
                           "  storyline " + story, "end"]) + "\n"
         cases.append(text)
+    # a failure reported AFTER several lines of the same group have reported success must not be lost
+    for i in range(2 if tier == "quick" else 8):
+        nok = rng.range(2, 4)
+        actors = ["a"] + ["k%d" % j for j in range(nok)]
+        text = "\n".join(["role r",
+                          "  :fail " + playgen.action_cmd("fail", rng.pick([0.2, 0.3, 0.4]), 3),
+                          "  :fine " + playgen.action_cmd("fine", 0, 0),
+                          "  :mark " + playgen.action_cmd("mark", 0, 0),
+                          "end", "cast"] + ["  %s plays r" % x for x in actors] + ["end", "script", "  tempo 100ms"]
+                         + ["  scene p entails for %s: fine" % x for x in actors[1:]]
+                         + ["  scene p entails for a: fail", "  scene s entails for a: mark", "  storyline p s", "end"]) + "\n"
+        cases.append(text)
     results = e2e.run_many([e2e.Play(t, timeout=60) for t in cases], workers=8)
     ofail = []
     for text, r in zip(cases, results):
@@ -278,7 +293,7 @@ def run_abort_cases(rep, tier, seed):
         if nfail != 1:
             problems.append("the failing action ran %d times" % nfail)
         if r["rc"] == 0:
-            problems.append("exit status 0 although the non-tolerated action a.fail failed (another line of the group was aborted in a tolerated action)")
+            problems.append("exit status 0 although the non-tolerated action a.fail failed (while other lines of the group were aborted or had already succeeded)")
         if nmark:
             problems.append("the next group started (a.mark performed %d times) after a non-tolerated failure" % nmark)
         if problems:
